@@ -54,6 +54,9 @@ func VC13_NoAttributes() {
 		IssuerAndSerialnumber: &issuerAndSerialNumber{RawIssuer: cert.RawIssuer, SerialNumber: cert.SerialNumber},
 		EncryptedDigest:       vsym.BytesN("sig", 256),
 	}}}
+	if vsym.Bool("attached") {
+		p.ContentInfo = append([]byte{0x04, 4}, vsym.BytesN("content", 4)...)
+	}
 	vsym.MustTerminate()
 	ok, _ := p.Verify(cert)
 	vsym.Assert(!ok, "a signer entry without signed attributes does not verify")
